@@ -77,6 +77,36 @@ pub const W5_ALPHABET: [char; 14] = [
     'a', ' ', '\n', '-', ':', '?', '[', '{', ']', ',', '#', '"', '\'', '|',
 ];
 
+/// The 16-symbol alphabet of C10's exhaustive enumeration: the characters the byte-level
+/// `StrInput` overrides special-case (blanks, TAB, breaks incl. CR, document-indicator and
+/// comment characters, flow indicators, a quote, a block-scalar header) plus one non-ASCII.
+pub const C10_ALPHABET: [char; 16] = [
+    'a', ' ', '\n', '\t', '-', '.', ':', '#', '[', ',', '"', '|', '\u{e9}', '\r', '?', '{',
+];
+
+pub fn nth_string(alphabet: &[char], mut i: u64) -> String {
+    let k = alphabet.len() as u64;
+    let mut len = 0u32;
+    loop {
+        let n = k.pow(len);
+        if i < n {
+            break;
+        }
+        i -= n;
+        len += 1;
+    }
+    let mut s = String::new();
+    for _ in 0..len {
+        s.push(alphabet[(i % k) as usize]);
+        i /= k;
+    }
+    s
+}
+
+pub fn count_strings(alphabet_len: usize, l: usize) -> u64 {
+    (0..=l).map(|k| (alphabet_len as u64).pow(k as u32)).sum()
+}
+
 pub fn w5_string(mut idx: u64, len: usize) -> String {
     let mut s = String::with_capacity(len);
     for _ in 0..len {
